@@ -165,17 +165,18 @@ Effect(op, X) ==
 
 ---------------------------------------------------------------------------
 (* Which option sets are enumerated.  quick: pairwise-complete (all sets with at most two options, all sets lacking
-   at most two options) plus every subset of the interacting recovery options; thorough additionally every set of
-   content options (without targeting) and every targeting set combined with the pairwise-complete content sets and
-   the recovery subsets; the three small calls are always enumerated in full.                                   *)
+   at most two options) plus every subset of the interacting recovery options; thorough additionally every subset of
+   the recovery options together with three representative independent ones, and every targeting set of at most two
+   options combined with the pairwise-complete content sets and the recovery subsets; the three small calls are
+   always enumerated in full.                                                                                   *)
 AtMost2(U)   == {{}} \cup {{a, b} : a \in U, b \in U}
 SmallSets(U) == AtMost2(U) \cup {U \ S : S \in AtMost2(U)}
 Combos(op) ==
   IF op # "subscribe" THEN SUBSET Opts(op)
   ELSE SmallSets(Opts(op)) \cup (SUBSET RecoveryGroup) \cup
        (IF Tier = "thorough"
-          THEN (SUBSET SubContent) \cup
-               {t \cup k : t \in SUBSET Targeting, k \in SmallSets(SubContent) \cup (SUBSET RecoveryGroup)}
+          THEN (SUBSET (RecoveryGroup \cup {"ServerTagsFilter", "EmitPresence", "ChannelInfo"})) \cup
+               {t \cup k : t \in AtMost2(Targeting), k \in SmallSets(SubContent) \cup (SUBSET RecoveryGroup)}
           ELSE {})
 
 VARIABLES op, x, wire, remote, local, reff, differs, culprits
